@@ -32,6 +32,9 @@ META = {
                    'written from documentation, not executable here; SQLite lexer cross-checked by execution.'),
     'rule': ('cases = (dialect, value) and (dialect, statement kind, names, values); exhaustive strings of length <= 3 over a '
              '17-character metacharacter alphabet (thorough: length 4 over 12 of them) x 7 dialects, seeded random full-range unicode strings, typed values, statements; '
+             'LIKE clauses (one expression object rendered for all dialects in varying order, executed on SQLite after a foreign rendering); '
+             'RelatedJoin add/remove/accessor, FK / id comparisons, get / selectBy / update / destroySelf on classes with STRING primary keys '
+             '(each op also on a benign-id twin; statements compared by token skeleton, link rows by raw SELECT); '
              'distinct = distinct (dialect, value/statement); non-trivial = the value contains a metacharacter or is not a plain string'),
     'trusted': ['reference string lexers mysql / postgres E\'\' / ANSI (Model/Lex.lean lexBody, python transcription in harness/c02.py)',
                 'reference statement tokenizer (Model/Lex.lean tokens): words, punctuation, string literals; comments and '
@@ -39,7 +42,8 @@ META = {
     'modelled': ['SQLite lexer and sqlite3 driver NUL rejection (executed, not verified)',
                  'repr(float), Decimal.to_eng_string: text taken from CPython, only its character class is used',
                  'raw NUL inside a firebird/sybase/maxdb/mssql/postgres statement is modelled as refused (C-string client APIs)'],
-    'assumptions': ['PostgreSQL runs with standard_conforming_strings=on (default since 9.1), MySQL without NO_BACKSLASH_ESCAPES and ANSI_QUOTES',
+    'assumptions': ['string primary keys: ids that look numeric are excluded (the link-table columns are declared INT; that is DDL, C14)',
+                    'PostgreSQL runs with standard_conforming_strings=on (default since 9.1), MySQL without NO_BACKSLASH_ESCAPES and ANSI_QUOTES',
                     'ENUM/CHECK DDL fragments are sequences of string literals joined by ", " (covered by the sequence theorem; the DDL text is C14)'],
     'exhaustive': False,
 }
@@ -47,6 +51,7 @@ META = {
 _NUM = re.compile(r'^(-?)([0-9A-Za-z.]+)(?:([+-])([0-9A-Za-z.]+))?$')
 DIALECTS = ['sqlite', 'mysql', 'postgres', 'firebird', 'sybase', 'maxdb', 'mssql']
 META_ALPHABET = ["'", '\\', '\x00', '\n', '\r', '\t', '\b', '\x1a', '%', '_', ';', '-', '/', '*', '1', '"', 'E']
+KEY_INST = 'C02:sqlobject-instance-with-str-id-renders-bare-unquoted-id'
 KEY_PG_OCTAL = 'C02:postgres:NUL-followed-by-octal-digit-decodes-as-octal-escape'
 
 
@@ -516,6 +521,8 @@ def run(ctx):
     # ------------------------------------------------ statements
     run_statements(ctx)
     run_sqlite_roundtrip(ctx, strings)
+    run_like(ctx)
+    run_strids(ctx)
 
 
 def scalar_value(rng):
@@ -554,6 +561,7 @@ def run_statements(ctx):
                 lines.append('t %s -' % d)
     outs = ctx.model(lines)
     k = 0
+    sbobj = {}
     for kind, table, names, vs, idn, idv in cases:
         for d in DIALECTS:
             stub = Stub(d)
@@ -597,8 +605,14 @@ def run_statements(ctx):
                     # sqlbuilder Insert / Update / IN through sqlrepr: oracle only
                     vals = dict(zip(names, vs))
                     nm = sorted(vals)
-                    sql = impl_sqlrepr(sb.Update(table, values={n: vals[n].py for n in nm},
-                                                 where=sb.IN(sb.SQLConstant(idn), [v.py for v in vs])), d)
+                    ck = (id(names), id(vs))
+                    if ck not in sbobj:      # ONE expression object per case, rendered for all 7 dialects (and twice)
+                        sbobj.clear()
+                        sbobj[ck] = sb.Update(table, values={n: vals[n].py for n in nm},
+                                              where=sb.IN(sb.SQLConstant(idn), [v.py for v in vs]))
+                    sql = impl_sqlrepr(sbobj[ck], d)
+                    if impl_sqlrepr(sbobj[ck], d) != sql:
+                        sql = 'error:rendering-not-repeatable'
                     lt = {n: lit_toks(vals[n]) for n in nm}
                     lv = [lit_toks(v) for v in vs]
                     want = None if any(t is None for t in list(lt.values()) + lv) else (
@@ -658,6 +672,366 @@ def run_sqlite_roundtrip(ctx, strings):
         if rows != want:
             ctx.oracle_fail('C02:sqlite:insert-roundtrip:%s,%s' % (enc(a), enc(b)),
                             'INSERT of (%r, %r) on SQLite leaves %r' % (a, b, rows), {'a': enc(a), 'b': enc(b)})
+
+
+
+# ------------------------------------------------------------------ LIKE patterns as a statement position
+LIKE_OPS = ['startswith', 'endswith', 'contains']
+LIKE_CTRL = '\x00\x08\n\r\t'      # the C17 finding's class on mysql/postgres (reported there, skipped here)
+Q = "'"
+
+
+def fold(s):
+    return ''.join(chr(ord(c) + 32) if 'A' <= c <= 'Z' else c for c in s)
+
+
+def like_pred(op, a, s):
+    a, s = fold(a), fold(s)
+    return s.startswith(a) if op == 'startswith' else s.endswith(a) if op == 'endswith' else a in s
+
+
+def like_q(a):
+    return ''.join('\\' + c if c in '\\%_' else c for c in a)
+
+
+def like_expr(op, a, col='t.c'):
+    sb = env()['sqlbuilder']
+    f = {'startswith': sb.STARTSWITH, 'endswith': sb.ENDSWITH, 'contains': sb.CONTAINSSTRING}[op]
+    return f(sb.SQLConstant(col), a)
+
+
+def like_want(op, a):
+    pre = '' if op == 'startswith' else '%'
+    post = '' if op == 'endswith' else '%'
+    return [('P', '('), ('W', 't.c'), ('W', 'LIKE'), ('P', '('), ('S', pre + like_q(a) + post), ('P', ')'),
+            ('W', 'ESCAPE'), ('S', '\\'), ('P', ')')]
+
+
+def run_like(ctx):
+    e = env()
+    rng = ctx.rng
+    raw = e['raw']
+    from sqlobject.converters import sqlrepr
+    args = [Q, Q * 2, Q * 3, Q + 'a', 'a' + Q, Q + 'a' + Q, Q * 2 + 'a' + Q * 2, 'a' + Q * 2 + 'b', Q + '%' + Q, '%' + Q, Q + '_',
+            '\\' + Q, Q + '\\', Q + '\\' + Q, 'E' + Q, 'E' + Q * 2, 'e' + Q + 'x' + Q,
+            '', 'a', '%', '_', '\\', 'ab', "x' OR '1'='1", "' --", "');--", 'A', '"', "'\n'", '\n']
+    quote_heavy = [Q, Q, 'a', 'b', '%', '_', '\\', 'E', '"', ' ']
+    for _ in range(ctx.budget(250, 6000)):
+        n = rng.choice([1, 2, 2, 3, 3, 4, 5])
+        if rng.random() < 0.7:
+            args.append(''.join(rng.choice(quote_heavy) for _ in range(n)))
+        else:
+            args.append(rand_string(rng, n))
+    # stored rows (bound parameters, no SQL text involved)
+    rows = set(['', Q, Q * 2, Q * 3, 'a', 'a' + Q, Q + 'a', "a'b", '%', '_', '\\', 'x', 'ab', Q * 2 + 'a' + Q * 2, 'A', 'B', 'x' + Q,
+                Q + 'x', '"'])
+    for a in args:
+        if '\x00' not in a:
+            rows.update([a, a + 'x', 'x' + a, 'x' + a + 'y'])
+    rows = sorted(rows)
+    raw.execute('CREATE TABLE IF NOT EXISTS lk (c TEXT)')
+    raw.execute('DELETE FROM lk')
+    raw.executemany('INSERT INTO lk VALUES (?)', [(r,) for r in rows])
+    lines = ['like %s %s %s' % (d, op, enc(a)) for a in args for op in LIKE_OPS for d in DIALECTS]
+    outs = ctx.model(lines)
+    k = 0
+    for i, a in enumerate(args):
+        for j, op in enumerate(LIKE_OPS):
+            # ONE expression object rendered for every dialect, in an order that varies, twice
+            obj = like_expr(op, a)
+            order = DIALECTS[(i + j) % 7:] + DIALECTS[:(i + j) % 7]
+            if (i + j) % 2:
+                order.reverse()
+            first = {}
+            for d in order + order:
+                try:
+                    t = sqlrepr(obj, d)
+                except Exception as ex:
+                    t = 'error:%s' % type(ex).__name__
+                if d in first and first[d] != t:
+                    ctx.oracle_fail('C02:like:%s:rendering-not-repeatable' % op,
+                                    'the same %s(%r) expression object renders %r and then %r for %s (order %s)'
+                                    % (op, a, first[d], t, d, order), {'op': op, 'arg': enc(a), 'dialect': d})
+                first.setdefault(d, t)
+            for d in DIALECTS:
+                clause = first[d]
+                desc = {'dialect': d, 'op': op, 'arg': enc(a), 'render_order': order}
+                ctx.case(('like', d, op, a), nontrivial=any(c in a for c in "'\\%_"), kind='like:' + op)
+                try:
+                    fresh = sqlrepr(like_expr(op, a), d)
+                except Exception as ex:
+                    fresh = 'error:%s' % type(ex).__name__
+                if fresh != clause:
+                    ctx.oracle_fail('C02:like:%s:depends-on-earlier-rendering' % op,
+                                    '%s(%r) rendered for %s after %s gives %r, a fresh expression gives %r'
+                                    % (op, a, d, order[:order.index(d)], clause, fresh), desc)
+                toks = ref_tokens(d, clause)
+                if outs is not None:
+                    mtext, mtoks = outs[k].split(' | ')
+                    ctx.compare('LIKE clause text (%s): model = code' % d, desc, mtext, enc(fresh))
+                    ctx.compare('LIKE clause tokens: model lexer = python transcription', desc, mtoks,
+                                show_toks(ref_tokens(d, fresh)))
+                k += 1
+                want = like_want(op, a)
+                if '\x00' in a and d not in ('mysql', 'postgres'):
+                    ok = toks is None          # refused
+                elif d in ('mysql', 'postgres') and any(c in LIKE_CTRL for c in a):
+                    # C17's recorded finding (pattern content wrong); here only: still ONE literal in the right skeleton
+                    ok = toks is not None and [t if t[0] != 'S' else 'S' for t in toks] == [t if t[0] != 'S' else 'S' for t in want]
+                else:
+                    ok = toks == want
+                if not ok:
+                    def bad(x):
+                        if '\x00' in x or any(c in LIKE_CTRL for c in x):
+                            return False
+                        return ref_tokens(d, sqlrepr(like_expr(op, x), d)) != like_want(op, x)
+                    m = minimise(a, bad) if bad(a) else a
+                    ctx.oracle_fail('C02:%s:like-pattern:%s:arg=%s' % (d, op, enc(m)),
+                                    'the clause %r of %s(%r) tokenises to %s, expected ( t.c LIKE ( <%r> ) ESCAPE <\\> )'
+                                    % (clause, op, a, show_toks(toks), want[4][1]), desc)
+            # ---- executed on the real SQLite, with an object that was rendered for another dialect before
+            if '\x00' in a:
+                continue
+            eobj = like_expr(op, a, 'lk.c')
+            try:
+                sqlrepr(eobj, ['mysql', 'postgres', 'mssql'][(i + j) % 3])
+                got = set(r[0] for r in raw.execute('SELECT c FROM lk WHERE ' + sqlrepr(eobj, 'sqlite')).fetchall())
+            except (sqlite3.Error, ValueError) as ex:
+                got = 'error:%s' % type(ex).__name__
+            want_rows = set(r for r in rows if like_pred(op, a, r))
+            ctx.case(('like-exec', op, a), kind='like-exec')
+            if got != want_rows:
+                def badx(x):
+                    try:
+                        o = like_expr(op, x, 'lk.c')
+                        sqlrepr(o, ['mysql', 'postgres', 'mssql'][(i + j) % 3])
+                        g = set(r[0] for r in raw.execute('SELECT c FROM lk WHERE ' + sqlrepr(o, 'sqlite')).fetchall())
+                    except (sqlite3.Error, ValueError):
+                        return '\x00' not in x
+                    return g != set(r for r in rows if like_pred(op, x, r))
+                m = minimise(a, badx) if badx(a) else a
+                diff = got if isinstance(got, str) else sorted(got ^ want_rows)[:4]
+                ctx.oracle_fail('C02:sqlite:like-rows:%s:arg=%s' % (op, enc(m)),
+                                '%s(%r) executed on SQLite (expression rendered for another dialect first): rows differ from '
+                                'the literal predicate: %r' % (op, a, diff), {'dialect': 'sqlite', 'op': op, 'arg': enc(a)})
+
+
+# ------------------------------------------------------------------ string primary keys: link tables, FK / id comparisons
+_sid = {}
+
+
+def strid_env():
+    if _sid:
+        return _sid
+    sqlo.setup()
+    from sqlobject import SQLObject, StringCol, IntCol, ForeignKey, RelatedJoin, MultipleJoin
+    from sqlobject.sqlite.sqliteconnection import SQLiteConnection
+    log = []
+
+    class LogConn(SQLiteConnection):
+        def _executeRetry(self, conn, cursor, query):
+            log.append(query)
+            return SQLiteConnection._executeRetry(self, conn, cursor, query)
+    conn = LogConn(':memory:')
+    conn.cache.kw['cullFrequency'] = 10 ** 9      # no culling: which SELECTs are sent must not depend on a get counter
+    dn, tn, nn, im, pn = (sqlo.uniq('C02Doc'), sqlo.uniq('C02Tag'), sqlo.uniq('C02Note'), sqlo.uniq('C02Item'),
+                          sqlo.uniq('C02Plain'))
+
+    def meta():
+        return type('sqlmeta', (), {'idType': str})
+    Doc = type(dn, (SQLObject,), {'_connection': conn, 'sqlmeta': meta(), 'title': StringCol(default=None),
+                                  'tags': RelatedJoin(tn), 'notes': MultipleJoin(nn, joinColumn='doc_id')})
+    Tag = type(tn, (SQLObject,), {'_connection': conn, 'sqlmeta': meta(), 'name': StringCol(default=None),
+                                  'docs': RelatedJoin(dn)})
+    Note = type(nn, (SQLObject,), {'_connection': conn, 'doc': ForeignKey(dn, default=None), 'body': StringCol(default=None)})
+    Item = type(im, (SQLObject,), {'_connection': conn, 'sqlmeta': meta(), 'name': StringCol(default=None)})
+    Plain = type(pn, (SQLObject,), {'_connection': conn, 'n': IntCol(default=None)})
+    for c in (Doc, Tag, Note, Item, Plain):
+        c.createTable()
+    join = [j for j in Doc.sqlmeta.joins if j.joinMethodName == 'tags'][0]
+    _sid.update(conn=conn, log=log, Doc=Doc, Tag=Tag, Note=Note, Item=Item, Plain=Plain, link=join.intermediateTable,
+                lcols=(join.joinColumn, join.otherColumn))
+    return _sid
+
+
+ID_PIECES = [Q, Q * 2, ')', '(', ' ', '--', ';', '"', '\\', '%', '_', 'x', 'OR', '1=1', '0', 'a', 'E', ',', '=', '/*', '*/',
+             '\xe9', '\U0001f600', '\n', 'NULL', '-']
+ID_CORPUS = ["0) OR (1=1", "x' OR '1'='1", "a'); DELETE FROM t; --", Q, Q * 2, "a b", "--", ";", "1=1", "x)", "(y", 'E' + Q + 'q',
+             "\\", "%"]
+
+
+def looks_numeric(s):
+    try:
+        float(s.strip())
+        return True
+    except ValueError:
+        return s.strip() == ''
+
+
+def rand_id(rng):
+    s = rng.choice(ID_CORPUS) if rng.random() < 0.3 else ''.join(rng.choice(ID_PIECES) for _ in range(rng.randint(1, 4)))
+    return s + 'q' if looks_numeric(s) else s      # the link columns have INT affinity: numeric-looking text is C14's business
+
+
+def skeleton(d, sql, idmap):
+    """tokens with every string literal mapped through idmap (twin id -> real id)"""
+    ts = ref_tokens(d, sql)
+    if ts is None:
+        return None
+    return [(k, idmap.get(v, v)) if k == 'S' else (k, '#') if k == 'W' and v.isdigit() else (k, v) for k, v in ts]   # '#': autoincrement ids
+
+
+STRID_OPS = ('note', 'notes', 'selfk', 'selfkobj', 'selby', 'get', 'selid', 'upd', 'selbyid', 'infk', 'selobj', 'inobj', 'destroy')
+
+
+def run_strids(ctx):
+    e = strid_env()
+    rng = ctx.rng
+    conn, log, Doc, Tag, Note, Item, Plain = e['conn'], e['log'], e['Doc'], e['Tag'], e['Note'], e['Item'], e['Plain']
+    link, (c1, c2) = e['link'], e['lcols']
+    from sqlobject.converters import sqlrepr
+    from sqlobject import sqlbuilder as sb
+
+    def raw(q):
+        return conn.queryAll(q)
+
+    def links():
+        return sorted(raw('SELECT %s, %s FROM %s' % (c1, c2, link)))
+    insts = []
+    for rnd in range(ctx.budget(40, 1500)):
+        for t in (link, Doc.sqlmeta.table, Tag.sqlmeta.table, Note.sqlmeta.table, Item.sqlmeta.table):
+            conn.query('DELETE FROM %s' % t)
+        conn.cache.clear()
+        nd, nt = rng.randint(1, 3), rng.randint(1, 3)
+        ids = []
+        while len(ids) < nd + nt + 1:
+            x = rand_id(rng)
+            if x not in ids and not x.startswith('tw'):
+                ids.append(x)
+        pairs = {}        # role -> (twin obj, real obj)
+        idmap = {}
+        try:
+            for i in range(nd):
+                pairs['d%d' % i] = (Doc(id='twd%d' % i, title='t'), Doc(id=ids[i], title='t'))
+                idmap['twd%d' % i] = ids[i]
+            for j in range(nt):
+                pairs['t%d' % j] = (Tag(id='twt%d' % j, name='n'), Tag(id=ids[nd + j], name='n'))
+                idmap['twt%d' % j] = ids[nd + j]
+            pairs['i'] = (Item(id='twi', name='n'), Item(id=ids[-1], name='n'))
+            idmap['twi'] = ids[-1]
+        except Exception as ex:
+            ctx.oracle_fail('C02:sqlite:str-id:create', 'creating rows with string ids %r raises %s: %s' % (ids, type(ex).__name__, ex),
+                            {'ids': [enc(x) for x in ids]})
+            continue
+        insts += [p[1] for p in list(pairs.values())[:2]]
+        expect = {0: [], 1: []}      # link rows (twin world, real world)
+        ops = []
+        for _ in range(rng.randint(3, 8)):
+            ops.append((rng.choice(['add', 'add', 'remove', 'tags', 'docs', 'radd', 'rremove']), rng.randrange(nd), rng.randrange(nt)))
+        ops += [(k, rng.randrange(nd), rng.randrange(nt)) for k in STRID_OPS]
+        for kind, i, j in ops:
+            res = {}
+            for w in (0, 1):                      # the benign-id twin first, then the real ids
+                d, t, it = pairs['d%d' % i][w], pairs['t%d' % j][w], pairs['i'][w]
+                del log[:]
+                try:
+                    if kind == 'add':
+                        getattr(d, 'add' + Tag.__name__)(t)
+                        expect[w].append((d.id, t.id))
+                        out = None
+                    elif kind == 'radd':
+                        getattr(t, 'add' + Doc.__name__)(d)
+                        expect[w].append((d.id, t.id))
+                        out = None
+                    elif kind == 'remove':
+                        getattr(d, 'remove' + Tag.__name__)(t)
+                        expect[w] = [x for x in expect[w] if x != (d.id, t.id)]
+                        out = None
+                    elif kind == 'rremove':
+                        getattr(t, 'remove' + Doc.__name__)(d)
+                        expect[w] = [x for x in expect[w] if x != (d.id, t.id)]
+                        out = None
+                    elif kind == 'tags':
+                        out = sorted(x.id for x in d.tags) == sorted(b for a, b in expect[w] if a == d.id)
+                    elif kind == 'docs':
+                        out = sorted(x.id for x in t.docs) == sorted(a for a, b in expect[w] if b == t.id)
+                    elif kind == 'note':
+                        out = Note(doc=d, body="b'").docID == d.id
+                    elif kind == 'notes':
+                        Note(doc=d, body='c')
+                        out = all(n.docID == d.id for n in d.notes) and len(list(d.notes)) >= 1
+                    elif kind == 'selfk':
+                        out = all(n.docID == d.id for n in Note.select(Note.q.docID == d.id))
+                    elif kind == 'selfkobj':
+                        n0 = Note(doc=d, body='o')
+                        out = n0.id in [n.id for n in Note.select(Note.q.docID == d)] and \
+                            all(n.docID == d.id for n in Note.select(Note.q.doc == d))
+                    elif kind == 'selby':
+                        out = all(n.docID == d.id for n in Note.selectBy(doc=d))
+                    elif kind == 'infk':
+                        n0 = Note(doc=d, body='i')
+                        out = [n.id for n in Note.select(sb.IN(Note.q.docID, [d.id, 'none-such']))].count(n0.id) == 1
+                    elif kind == 'get':
+                        conn.cache.clear()
+                        out = Doc.get(d.id).id == d.id
+                        conn.cache.clear()      # keep the twin world and the real world symmetric
+                    elif kind == 'selid':
+                        out = [x.id for x in Doc.select(Doc.q.id == d.id)] == [d.id]
+                    elif kind == 'selbyid':
+                        out = [x.id for x in Tag.selectBy(id=t.id)] == [t.id]
+                    elif kind == 'upd':
+                        it.name = "z'"
+                        out = raw('SELECT name FROM %s WHERE id = %s' % (Item.sqlmeta.table, sqlrepr(it.id, 'sqlite'))) == [("z'",)]
+                    elif kind == 'selobj':
+                        out = [x.id for x in Tag.select(Tag.q.id == t)] == [t.id]
+                    elif kind == 'inobj':
+                        out = sorted(x.id for x in Tag.select(sb.IN(Tag.q.id, [t]))) == [t.id]
+                    elif kind == 'destroy':
+                        n_before = raw('SELECT COUNT(*) FROM %s' % Item.sqlmeta.table)[0][0]
+                        it.destroySelf()
+                        out = raw('SELECT COUNT(*) FROM %s' % Item.sqlmeta.table)[0][0] == n_before - 1
+                except Exception as ex:
+                    out = 'error:%s' % type(ex).__name__
+                res[w] = (out, list(log))
+            (tout, tsql), (rout, rsql) = res[0], res[1]
+            desc = {'op': kind, 'ids': {k: enc(v) for k, v in idmap.items()}, 'statements': rsql[:4]}
+            ctx.case(('strid', kind, tuple(sorted(idmap.values())), i, j), kind='str-id:' + kind)
+            tsk = [skeleton('sqlite', q, idmap) for q in tsql]
+            rsk = [skeleton('sqlite', q, {}) for q in rsql]
+            state_ok = links() == sorted(expect[0] + expect[1])
+            if rout != tout or rsk != tsk or rout not in (None, True) or not state_ok:
+                what = ('%s with string ids: result %r (benign-id twin: %r); statements %r; compared with the twin\'s statements '
+                        '(its ids replaced) they tokenise %s; link rows as intended: %r'
+                        % (kind, rout, tout, rsql[:3], 'identically' if rsk == tsk else 'DIFFERENTLY', state_ok))
+                if kind in ('selobj', 'inobj') and state_ok:
+                    ctx.oracle_fail(KEY_INST, 'an SQLObject instance with a string id used as a query value (T.q.id == obj, '
+                                    'IN(col, [obj])) is rendered by SQLObject.__sqlrepr__ as the bare id text, unquoted: ' + what, desc)
+                else:
+                    ctx.oracle_fail('C02:sqlite:str-id:%s' % kind, what, desc)
+                # resynchronise the expectation with the table so that one failure is reported once
+                cur = links()
+                expect[0] = [x for x in cur if str(x[0]).startswith('tw')]
+                expect[1] = [x for x in cur if not str(x[0]).startswith('tw')]
+    # ---- instances as values, all dialects: model = code, and one literal of the id
+    plain = [Plain(n=1), Plain(n=2)]
+    vals = [(o, 'OI:%d' % o.id) for o in plain] + [(o, 'OS:' + enc(o.id)) for o in insts[:60] if '\x00' not in o.id]
+    outs = ctx.model(['v %s %s' % (d, spec) for o, spec in vals for d in DIALECTS])
+    k = 0
+    for o, spec in vals:
+        for d in DIALECTS:
+            text = impl_sqlrepr(o, d)
+            desc = {'dialect': d, 'value': spec}
+            ctx.case(('inst', d, spec), kind='value:instance')
+            if outs is not None:
+                ctx.compare('sqlrepr(SQLObject instance, %s): model = code' % d, desc, outs[k].split(' | ')[0], enc(text))
+            k += 1
+            want = v_int(o.id).toks(d) if isinstance(o.id, int) else [('S', o.id)]
+            got = ref_tokens(d, text + ' )')
+            if got is None or got[:-1] != want:
+                if isinstance(o.id, str):
+                    ctx.oracle_fail(KEY_INST, 'sqlrepr(<instance with id %r>, %r) = %r: the bare id text, not a literal' % (o.id, d, text), desc)
+                else:
+                    ctx.oracle_fail('C02:%s:instance-value:%s' % (d, spec), 'sqlrepr(instance) = %r' % text, desc)
 
 
 def replay(case):
